@@ -646,7 +646,8 @@ def open_reader(fmt, simfile, rp):
     possibly damaged file would (errors='replace'); via='open' - the reader is given a *path* and opens the file
     itself; the module-level name `open` it uses is rebound to the simulated disk, so encoding/error handling are the
     library's own choice."""
-    raw = RawReader(simfile, {'chunk': rp.get('chunk'), 'error_at_byte': rp.get('error_at_byte'), 'budget': rp.get('budget')})
+    raw = RawReader(simfile, {'chunk': rp.get('chunk'), 'error_at_byte': rp.get('error_at_byte'), 'budget': rp.get('budget'),
+                              'noseek': bool(rp.get('noseek')) and rp.get('via') in (None, 'wrapper')})
     kw = {}
     if rp.get('remap'):
         kw['remap'] = True
@@ -1557,6 +1558,8 @@ def generate(seed):
             rp['pattern'] = [s.randrange(3) for _ in range(s.choice([1, 2, 3, 5]))]
         if s.random() < 0.4:
             rp['chunk'] = s.choice([1, 3, 7, 64, 511])
+        if rp['via'] == 'wrapper' and s.random() < 0.25:
+            rp['noseek'] = True
         if mode == 'clean' and s.random() < 0.15:
             rp['remap'] = True
         elif mode == 'clean' and s.random() < 0.1:
